@@ -602,7 +602,10 @@ def ccTable : List CcCfg := [
 
     def mutate_around(self, case, rng, n):
         """re-segment the stream of the differing case"""
-        port = case.meta.get("port") or (case.lines[0].split()[1] if case.lines else "telnet")
+        port = case.meta.get("port")
+        if not port:        # corpus / known-finding cases: comment and `cb` lines may precede the `port` line
+            pl = [l.split() for l in case.lines if l.startswith("port ")]
+            port = pl[0][1] if pl and len(pl[0]) == 2 and pl[0][1] in ("telnet", "ascii", "binary", "console") else "telnet"
         data = b""
         for l in case.lines:
             t = l.split()
